@@ -228,33 +228,33 @@ def run_case(ctx, name, params):
         pt = Patches()
 
         def mk_best(orig):
-            def update_particle_best(self, population):
+            def update_particle_best(self, population, *a, **kw):
                 pre = pre_best(population)
-                res = orig(self, population)
+                res = orig(self, population, *a, **kw)
                 judge_best(ctx, pre, list(population), "insitu")
                 ctx.count("insitu_pbest_updates")
                 return res
             return update_particle_best
 
         def mk_vel(orig):
-            def update_velocity(self, individuals):
-                res = orig(self, individuals)
+            def update_velocity(self, individuals, *a, **kw):
+                res = orig(self, individuals, *a, **kw)
                 judge_velocity(ctx, self, list(individuals), "insitu")
                 return res
             return update_velocity
 
         def mk_pos(orig):
-            def update_position(self, individuals):
+            def update_position(self, individuals, *a, **kw):
                 pre = pre_pos(individuals)
-                res = orig(self, individuals)
+                res = orig(self, individuals, *a, **kw)
                 judge_position(ctx, self, algo, pre, list(individuals), "insitu")
                 ctx.count("insitu_position_updates")
                 return res
             return update_position
 
         def mk_gb(orig):
-            def update_global_best(self, swarm):
-                res = orig(self, swarm)
+            def update_global_best(self, swarm, *a, **kw):
+                res = orig(self, swarm, *a, **kw)
                 judge_leaders(ctx, self, "insitu")
                 return res
             return update_global_best
